@@ -12,9 +12,10 @@
 (* A case: [id, flags : <<deviation flags>>, trace : <<lines>>].  Lines (field k):             *)
 (*   spawn t kind c dn dkm ts | spawnf t c ts | envcancel t | start t ts                        *)
 (*   op t op ...  (unique n km | sleep d ts | raise | fin | create ch | cancel v | addcb v f a  *)
-(*                 | rmcb v f | wait v)                                                         *)
+(*                 | rmcb v f | wait v | call ch c bl)                                          *)
 (*   exc t                    the API call of the preceding op line raised in the caller        *)
-(*   res t ts w               resumed after sleep (w = "-") / task.wait (w = what it saw)       *)
+(*   res t ts w               resumed after sleep (w = "-") / task.wait (w = what it saw) /     *)
+(*                            a blocking service call (w = "called")                            *)
 (*   cb t f a | cbop t f b ts d | cbres t ts                                                    *)
 (*   snap owner live ours cbk ctxk extra     registries projected at a quiescent point          *)
 EXTENDS Tasks, Json, IOUtils
@@ -60,6 +61,8 @@ OpLine ==
        [] L.op = "rmcb"   -> OpRmCb(t, L.v, L.f) /\ UNCHANGED due
        [] L.op = "wait"   -> OpWait(t, L.v) /\ UNCHANGED due
        [] L.op = "exec"   -> OpExec(t) /\ UNCHANGED due
+       \* the called run starts in the instant of the call, like every other run
+       [] L.op = "call"   -> OpCall(t, L.ch, L.c, L.bl) /\ due' = [due EXCEPT ![L.ch] = L.ts]
 \* the preceding API call raised: only a deviation flag makes the model do that
 ExcLine ==
   /\ IsLine("exc") /\ Adv
@@ -83,10 +86,16 @@ Seen(v) == IF outcome[v] = "cancelled" THEN "cancelled"
            ELSE IF outcome[v] = "ok" /\ kind[v] # "trig" THEN "value" ELSE "none"
 ResLine ==
   /\ IsLine("res") /\ Adv /\ phase[Line.t] = "body" /\ Continue(Line.t)
-  /\ IF Line.w = "-" THEN Line.ts = due[Line.t]
-     ELSE waitOn[Line.t] # None /\ Done(waitOn[Line.t]) /\ Line.w = Seen(waitOn[Line.t])
+  /\ CASE Line.w = "-" -> Line.ts = due[Line.t]
+       \* a blocking call returns when the called run is done, in that very instant (the line before this
+       \* one - the last step of that run or the cancellation that ended it - carries the same instant)
+       [] Line.w = "called" -> /\ waitOn[Line.t] # None /\ Done(waitOn[Line.t]) /\ kind[waitOn[Line.t]] = "svc"
+                               /\ l > 1 /\ Line.ts = Trace[l - 1].ts
+       [] OTHER -> waitOn[Line.t] # None /\ Done(waitOn[Line.t]) /\ Line.w = Seen(waitOn[Line.t])
   /\ UNCHANGED due
-CbLine == /\ IsLine("cb") /\ Adv /\ CbStart(Line.t, Line.f) /\ cbs[Line.t][Line.f] = Line.a /\ UNCHANGED due
+CbLine == /\ IsLine("cb") /\ Adv /\ UNCHANGED due
+          /\ \/ CbStart(Line.t, Line.f) /\ cbs[Line.t][Line.f] = Line.a
+             \/ CbStartStale(Line.t, Line.f) /\ StaleArg(Line.t, Line.f) = Line.a
 CbOpLine ==
   /\ IsLine("cbop") /\ Adv /\ cbcur[Line.t] = Line.f
   /\ CASE Line.b = "ret"   -> CbFinish(Line.t) /\ UNCHANGED due
@@ -117,11 +126,13 @@ S_Cleanup       == Keep /\ \E t \in All : Cleanup(t)
 S_Refuse        == Keep /\ \E t \in All : Start(t) /\ st'[t] = "done"      \* kill_me decoration refuses the run
 S_Wake          == Keep /\ \E t \in All : NextIsResumeOf(t) /\ Wake(t)
 S_WaitWake      == Keep /\ \E t \in All : NextIsResumeOf(t) /\ WaitWake(t)
-Silent == S_ReaperTake \/ S_ReaperDone \/ S_DeliverCancel \/ S_Cleanup \/ S_Refuse \/ S_Wake \/ S_WaitWake
+\* only under "call-couples-cancel": the blocked caller of a cancelled run is woken to be cancelled (no line shows it)
+S_CalleeKills   == Keep /\ \E t \in All : CalleeKills(t) /\ WaitWake(t)
+Silent == S_ReaperTake \/ S_ReaperDone \/ S_DeliverCancel \/ S_Cleanup \/ S_Refuse \/ S_Wake \/ S_WaitWake \/ S_CalleeKills
 
 TNext == SpawnLine \/ SpawnFLine \/ EnvCancelLine \/ XresLine \/ SkipLine \/ EnvSkipLine \/ StartLine \/ OpLine \/ ExcLine \/ ResLine
          \/ CbLine \/ CbOpLine \/ CbResLine \/ SnapLine
-         \/ S_ReaperTake \/ S_ReaperDone \/ S_DeliverCancel \/ S_Cleanup \/ S_Refuse \/ S_Wake \/ S_WaitWake
+         \/ S_ReaperTake \/ S_ReaperDone \/ S_DeliverCancel \/ S_Cleanup \/ S_Refuse \/ S_Wake \/ S_WaitWake \/ S_CalleeKills
 TSpec == TInit /\ [][TNext]_tvars
 
 \* furthest line consumed per case (needs -workers 1); registers initialised by the ASSUME
